@@ -1,4 +1,5 @@
 import Rp2.Proofs.PropsB
+import Rp2.Proofs.ParseIds
 /-! # C11 — parsed transactions equal the spreadsheet rows for any column layout -/
 namespace Rp2.C11
 open Rp2
@@ -12,4 +13,17 @@ theorem in_row_layout_independent (cfg cfg' : Config) (asset : String) (acct : S
 theorem permuted_columns_same_fields (cols : List (String × Nat)) (row : List Cell) (π : Nat → Nat) (row' : List Cell)
     (hrow : ∀ p ∈ cols, row'.getD (π p.2) .empty = row.getD p.2 .empty) (name : String) :
     field (cols.map (fun p => (p.1, π p.2))) row' name = field cols row name := field_perm cols row π row' hrow name
+/-- ids are 1-based row numbers; within a table they strictly increase, so no row is read twice; the artificial fee
+    transactions created for acquisitions with a crypto fee are fee-only disposals with negative ids -/
+theorem ids_are_row_numbers (cfg : Config) (asset : String) (acct : String → String → Nat) (rows : List (List Cell)) (p : Parsed)
+    (h : parseSheet cfg asset acct rows = .ok p) :
+    p.ins ≠ [] ∧ (p.ins.map (·.row)).Pairwise (· < ·) ∧ (∀ t ∈ p.ins, 0 < t.row ∧ t.row ≤ rows.length) ∧
+    (p.intras.map (·.row)).Pairwise (· < ·) ∧ (∀ t ∈ p.intras, 0 < t.row ∧ t.row ≤ rows.length) ∧
+    (∀ t ∈ p.outs, (0 < t.row ∧ t.row ≤ rows.length) ∨ (t.row < 0 ∧ t.typ = .fee ∧ t.outNoFee = 0)) := parseSheet_ids cfg asset acct rows p h
+/-- a row in data position that cannot be built into a transaction aborts the parse: no row is skipped -/
+theorem no_row_skipped (cfg : Config) (asset : String) (acct : String → String → Nat) (i : Nat) (st : PState) (row : List Cell)
+    (rest : List (List Cell)) (t : Table) (hcur : st.cur = some t) (hcount : st.count ≠ 1)
+    (h0 : tableOf (row.getD 0 .empty) = none) (h1 : isEnd (row.getD 0 .empty) = false) (h2 : isEmptyCell (row.getD 0 .empty) = false)
+    (m : String) (hbad : tryRow cfg asset acct t (i + 1) row st = .error m) :
+    parseRows cfg asset acct i st (row :: rest) = .error (.row (i + 1) m) := parseRows_bad_row cfg asset acct i st row rest t hcur hcount h0 h1 h2 m hbad
 end Rp2.C11
